@@ -42,6 +42,7 @@ func errorReturnsOfType(fn *ssa.Function, typeName string) []*ssa.Return {
 }
 
 func runC07(p *an.Prog, r *an.Run, tier string) {
+	checkSurfaceClosed(p, r)
 	a := buildAuth(p)
 	var settlers []*ssa.Function
 	for _, fn := range p.Repo {
@@ -153,6 +154,14 @@ func runC07(p *an.Prog, r *an.Run, tier string) {
 		}
 		settle := settles[0]
 		r.CallSites++
+		// one request, one settlement attempt, one fee: neither the settlement nor the fee callback sits in a loop (a
+		// retry re-sends a payment whose first attempt may have landed, and the fee function works in place on the
+		// amount, so every further attempt takes the fee off again)
+		if in, ok := settle.(ssa.Instruction); ok && onCycle(in.Block()) {
+			r.Fail("gate", name+":settle-once", settle.Pos(), "the settlement at %s is inside a loop: a request can settle (or try to) more than once, with the fee deducted again at every attempt", p.Pos(settle.Pos()))
+		} else {
+			r.Ok("gate", name+":settle-once", settle.Pos(), "the settlement is attempted once per request")
+		}
 		sargs := settle.Common().Args
 		if len(sargs) != 3 {
 			r.Undec("gate", name, settle.Pos(), "settlement handler called with %d arguments, expected (account, amount, newBalance)", len(sargs))
